@@ -148,6 +148,9 @@ class ReactionSummary(Summary):
                 | (self._flux["maximum"].abs() >= threshold),
                 :,
             ].copy()
+            if frame.empty:
+                # all values lie below the threshold, they are shown as zero
+                frame = self._flux.abs() * 0.0
             return (
                 f"{frame.at[self._reaction.id, 'flux']:{float_format}} "
                 f"[{frame.at[self._reaction.id, 'minimum']:{float_format}}; "
@@ -155,6 +158,9 @@ class ReactionSummary(Summary):
             )
         else:
             frame = self._flux.loc[self._flux["flux"].abs() >= threshold, :].copy()
+            if frame.empty:
+                # the flux lies below the threshold, it is shown as zero
+                frame = self._flux.abs() * 0.0
             return f"{frame.at[self._reaction.id, 'flux']:{float_format}}"
 
     def to_string(
